@@ -8,12 +8,12 @@ CONSTANTS
  Defect = "none"
  Honest = {1, 2}
  Args <- ArgsCore
- ByzReqs <- Byz3
- MaxByz = 1
- Faults <- FApi
- MaxFault = 1
- Tampers <- TAll
- MaxTamper = 1
+ ByzReqs <- Byz3Out
+ MaxByz = 2
+ Faults <- FNone
+ MaxFault = 0
+ Tampers <- TNone
+ MaxTamper = 0
  Plants <- PNone
  MaxPlant = 0
  Statuses <- SNone
